@@ -153,5 +153,31 @@ def run(ctx, prog, res):
                     continue
                 r5.fail("C13.R5:mut:%s:%s" % (fn.module, cal.get("name")), "%s takes mutable access to a rule of the stream (`%s`): rules are built by canonical_to_seq or passed through unchanged" % (fid, cal.get("name")), lib.where_of(fn, t))
     r5.ok({"assignments_scanned": n_store, "stores_into_rule_fields": 0})
+    # (d) where the paving loop stops depends only on the rule at hand (the queue is empty, the rule is a fallback, the
+    #     rule cannot be expressed as plain ranges): a stop that depends on anything else - a count, a size - moves between
+    #     two passes, and the second pass merges what the first left
+    if nfn:
+        ALLOWED_EXIT = re.compile(r"^(discr\((Peekable::peek|Iterator::next|::next)\(.*\)\)|(PartialEq::eq|PartialEq::ne|::eq|::ne)\(.*\.operator, .*Fallback.*\)|discr\(normalize::ruleseq_to_selector\(.*\)\))$")
+        # loop blocks: blocks on a cycle through the peek call
+        peeks = [bb for bb, t in nfn.calls() if (t.get("callee") or {}).get("name") == "peek"]
+        loop = set()
+        if peeks:
+            hdr = peeks[0]
+            fwd = flow.reachable_blocks(nfn, hdr)
+            loop = {b for b in fwd if hdr in flow.reachable_blocks(nfn, b)}
+        n_exit = 0
+        for b in sorted(loop):
+            tt = nfn.blocks[b]["term"]
+            if tt["k"] != "switch":
+                continue
+            outs = [x for x in nfn.succs(b) if x not in loop and not nfn.blocks[x]["cleanup"]]
+            # an exit edge: leaves the loop, or leads to blocks from which the loop header is not reachable any more
+            if not outs:
+                continue
+            n_exit += 1
+            shx = flow.shape(nfn, tt["op"], depth=5)
+            r5.check(ALLOWED_EXIT.match(shx) is not None, {"paving_loop_stops_on": shx[:100]}, "C13.R5:exit:%s" % re.sub(r"[^A-Za-z_:]+", "_", shx)[:60],
+                     "the paving loop of normalize stops on `%s`, which is not a property of the rule at hand (queue empty / fallback rule / rule not expressible as ranges): the stopping point moves between two passes and normalize(normalize(e)) merges more than normalize(e)" % shx[:160], lib.where_of(nfn, tt))
+        r5.check(n_exit >= 3, {"loop_exits": n_exit}, "C13.R5:exit:ANCHOR", "ANCHOR: the paving loop of normalize has %d exits (expected the three stops)" % n_exit, lib.where_of(nfn))
     r5.ok({"stream_operations_classified": n_stream})
     r5.floor(4)
